@@ -181,7 +181,7 @@ namespace avel {
         static vec2x64i compute_mp(vec2x64i l, vec2x64i d) {
             #if defined(AVEL_AVX2)
             vec2x64i n = vec2x64i{1} << (l - vec2x64i{1});
-            n = clear(d == vec2x64i{1}, n);
+            n = clear(abs(d) == vec2x64i{1}, n);
 
             d = avel::abs(d);
 
